@@ -3,6 +3,8 @@
 //   -DC14_PART=1 : same-type families for the ten standard integer types   (-DC14_ROWS=0 signed, 1 unsigned)
 //   -DC14_PART=2 : gcd/lcm over mixed type pairs (std::gcd/lcm accept any two integer types)
 //                  (-DC14_ROWS=0..3 : first type in {int8,int16} / {int32,int64} / {uint8,uint16} / {uint32,uint64})
+//   -DC14_PART=3 : bulk sweep (thorough tier, plain flavour): every pair of 16-bit values for add_sat/div_sat/midpoint/idiv,
+//                  every value x every 8th value for gcd/lcm
 #include "vf.hpp"
 #include "vf_contract.hpp"
 
@@ -106,7 +108,7 @@ struct Lcm {
     }
 };
 
-#if C14_PART == 1
+#if C14_PART != 2
 // ---------------------------------------------------------------- add_sat / div_sat
 template <class T>
 struct AddSat {
@@ -390,6 +392,20 @@ void c14::register_all()
     reg_unary<IpowT<-2>>(false);
     reg_unary<IpowT<-3L>>(false);
     reg_unary<IpowT<static_cast<signed char>(-2)>>(false);
+#elif C14_PART == 3
+    max_block() = 1u << 22;
+    auto bulk = []<class T>(T) {
+        reg_binary<AllY<AddSat<T>>>(false, 3, "all-pairs-16bit");
+        reg_binary<AllY<DivSat<T>>>(false, 3, "all-pairs-16bit");
+        reg_binary<AllY<Midpoint<T>>>(false, 3, "all-pairs-16bit");
+        reg_binary<AllY<Idiv<T>>>(false, 3, "all-pairs-16bit");
+        reg_binary<AllY<Gcd<T, T>, 8>>(false, 3, "all16-x-every-8th");
+        reg_binary<AllY<Lcm<T, T>, 8>>(false, 3, "all16-x-every-8th");
+    };
+    bulk(short{});
+    bulk(static_cast<unsigned short>(0));
+    reg_binary<AllY<Gcd<short, unsigned short>, 16>>(false, 3, "all16-x-every-16th");
+    reg_binary<AllY<Lcm<unsigned short, short>, 16>>(false, 3, "all16-x-every-16th");
 #elif C14_PART == 1
     reg_type<unsigned char>();
     reg_type<unsigned short>();
@@ -423,6 +439,8 @@ void c14::register_all()
 #define C14_STR(x) C14_STR2(x)
 #if C14_PART == 1
 VF_MAIN("C14", "C14_arith_" C14_STR(C14_ROWS), spec, c14::run_case)
+#elif C14_PART == 3
+VF_MAIN("C14", "C14_arith_bulk", spec, c14::run_case)
 #else
 VF_MAIN("C14", "C14_gcdmix_" C14_STR(C14_ROWS), spec, c14::run_case)
 #endif
